@@ -3,6 +3,8 @@ from collections import defaultdict
 from dataclasses import dataclass
 from enum import Enum, auto
 from itertools import product
+import json
+import os
 from typing import (
     Any,
     Callable,
@@ -74,6 +76,56 @@ class Candidate(Generic[ValueTypeT, InfoTypeT]):
 
     # Arbitrary info tag attached to this value
     info: Optional[InfoTypeT] = None
+
+
+# Verification hook: inactive unless SUPERREC2_VERIF=1 and SUPERREC2_VERIF_TRACE
+# names a file; then every Entry.update call appends one JSON line to it.
+_VERIF_LOG = None
+
+if os.environ.get("SUPERREC2_VERIF") == "1" and os.environ.get("SUPERREC2_VERIF_TRACE"):
+    _VERIF_LOG = open(  # pylint: disable=consider-using-with
+        os.environ["SUPERREC2_VERIF_TRACE"], "a", encoding="utf8"
+    )
+
+_VERIF_SERIAL = [0]
+_VERIF_TAGS: dict = {}
+
+
+def _verif_trace(entry, candidates) -> None:
+    """Record one update of an entry (verification hook)."""
+
+    def plain(value):
+        return "inf" if value == inf else "-inf" if value == -inf else value
+
+    def tag(info):
+        if not info:
+            return "none"
+        if info not in _VERIF_TAGS:
+            _VERIF_TAGS[info] = f"t{len(_VERIF_TAGS)}"
+        return _VERIF_TAGS[info]
+
+    if not hasattr(entry, "_verif_id"):
+        _VERIF_SERIAL[0] += 1
+        entry._verif_id = _VERIF_SERIAL[0]  # pylint: disable=protected-access
+        first = True
+    else:
+        first = False
+
+    _VERIF_LOG.write(
+        json.dumps(
+            {
+                "id": entry._verif_id,  # pylint: disable=protected-access
+                "first": first,
+                "mp": entry._merge_policy.name,  # pylint: disable=protected-access
+                "rp": entry._retention_policy.name,  # pylint: disable=protected-access
+                "cands": [[plain(c.value), tag(c.info)] for c in candidates],
+                "val": plain(entry.value()),
+                "tags": sorted(tag(info) for info in entry.infos()),
+            }
+        )
+        + "\n"
+    )
+    _VERIF_LOG.flush()
 
 
 class MergePolicy(Enum):
@@ -238,6 +290,9 @@ class Entry(Generic[ValueTypeT, InfoTypeT]):
                     self._infos = set()
 
                 self._value = value
+
+        if _VERIF_LOG is not None:
+            _verif_trace(self, candidates)
 
     update.__doc__ = EntryProtocol.update.__doc__
 
